@@ -279,6 +279,44 @@ func runC19(r *Run) {
 			}
 			r.check(found, "handler:preflight-sets-"+hdr, r.pos(pre.If), hdr+" is set in the preflight region", hdr+" is never set for preflight requests")
 		}
+		// configured headers win: what the request asks for is echoed only when no list is configured
+		var emptyEdges []edge
+		for _, br := range branchesIn(h) {
+			k, isInt := constInt(br.Info.Const)
+			c, isCall := stripValue(br.Info.Root).(*ssa.Call)
+			if !isInt || k != 0 || !isCall || calleeName(&c.Call) != "builtin:len" || len(c.Call.Args) != 1 {
+				continue
+			}
+			if fv := fieldOfValue(stripValue(c.Call.Args[0])); fv == nil || fv.Name() != "AllowHeaders" {
+				continue
+			}
+			switch br.Info.Op {
+			case token.GTR, token.NEQ:
+				emptyEdges = append(emptyEdges, edge{br.If.Block(), br.slotWhenRel(false)})
+			case token.EQL, token.LEQ:
+				emptyEdges = append(emptyEdges, edge{br.If.Block(), br.slotWhenRel(true)})
+			}
+		}
+		isEcho := func(in ssa.Instruction) bool {
+			ci, ok := in.(ssa.CallInstruction)
+			if !ok || !strings.HasSuffix(calleeName(ci.Common()), ".Ctx).Set") {
+				return false
+			}
+			if s, ok := constString(asConst(ci.Common().Args[0])); !ok || s != "Access-Control-Allow-Headers" {
+				return false
+			}
+			return dependsOn(ci.Common().Args[1], func(x ssa.Value) bool {
+				c, ok := x.(*ssa.Call)
+				return ok && strings.HasSuffix(calleeName(&c.Call), ".Ctx).Get")
+			}) != nil
+		}
+		cutE := map[edge]bool{}
+		for _, e := range emptyEdges {
+			cutE[e] = true
+		}
+		_, hit = reach(start, isEcho, cutE, nil)
+		r.check(hit == nil, "handler:preflight-configured-headers-win", r.pos(pre.If), fmt.Sprintf("the requested headers are echoed only behind `no AllowHeaders configured` (%d such tests)", len(emptyEdges)),
+			"Access-Control-Allow-Headers can carry the request's Access-Control-Request-Headers although a list is configured: every header the caller asks for is allowed")
 	})
 
 	r.rule("R5", "the wildcard split keeps the label boundary: the offsets applied to a `scheme://*.domain` entry agree with the positions of `*` and `.` in the literal that located them (E5)", func() {
@@ -329,6 +367,46 @@ func runC19(r *Run) {
 				}
 			}
 		}
+		// the split written with strings.Cut: the part before the separator does not contain it, so a prefix taken
+		// from it must get the separator back; the part after "://" starts at the '.' the wildcard left behind
+		var cutBad []string
+		for _, fr := range fieldRefs(f) {
+			if !fr.Write || !strings.HasSuffix(fr.Name, "subdomain.prefix") && !strings.HasSuffix(fr.Name, "subdomain.suffix") {
+				continue
+			}
+			isPrefix := strings.HasSuffix(fr.Name, ".prefix")
+			v := stripValue(fr.Val)
+			tail := ""
+			if bo, ok := v.(*ssa.BinOp); ok && bo.Op == token.ADD {
+				if s, ok := constString(asConst(bo.Y)); ok {
+					tail, v = s, stripValue(bo.X)
+				}
+			}
+			c, k := producerCall(v)
+			if c == nil || calleeName(&c.Call) != "strings.Cut" || k < 0 || k > 1 {
+				continue
+			}
+			sep, ok := constString(asConst(c.Call.Args[1]))
+			if !ok {
+				continue
+			}
+			n++
+			ref, sufAt := noStar, star
+			if c.Call.Args[0] == raw {
+				ref, sufAt = lit, star+1
+			}
+			at := strings.Index(ref, sep)
+			switch {
+			case at < 0 || sep == "":
+				cutBad = append(cutBad, fmt.Sprintf("%s: strings.Cut separator %q is not part of %q", r.pos(fr.Instr), sep, ref))
+			case isPrefix && (k != 0 || ref[:at]+tail != ref[:star]):
+				cutBad = append(cutBad, fmt.Sprintf("%s: the stored prefix is the text before %q plus %q: it does not end at the wildcard (with the scheme separator)", r.pos(fr.Instr), sep, tail))
+			case !isPrefix && (k != 1 || tail != "" || at+len(sep) != sufAt):
+				cutBad = append(cutBad, fmt.Sprintf("%s: the stored suffix is not the text that follows the wildcard position", r.pos(fr.Instr)))
+			}
+		}
+		r.check(len(cutBad) == 0, "New:wildcard-split-by-cut", r.pos(idx), "a split written with strings.Cut keeps the scheme separator in the prefix and starts the suffix at the label separator",
+			"a wildcard entry's prefix no longer ends with `://` (or its suffix no longer starts at the `.`): `http://*.example.com` then also allows `https://x.example.com` / look-alike hosts ("+strings.Join(cutBad, "; ")+")")
 		r.atLeast("wildcard split offsets", n, 4)
 		wildcardOffsetsOnTheirString(r, f, "New:wildcard-position-on-the-same-string")
 		r.check(len(bad) == 0, "New:wildcard-split-offsets", r.pos(idx), fmt.Sprintf("%d offsets relative to Index(entry, %q): prefixes end at the `*`, suffixes start at the following `.`", n, lit),
